@@ -262,6 +262,18 @@ def run_compare(case, ctx):
         ctx.label("excluded_date_override")
         return
     va = B.vector(a)
+    if ka == "bool" and None not in a:
+        # a boolean vector used as a mask on itself (also when it is empty), and on the table it is a column of
+        ctx.ev()
+        vself = S.Vector(list(a)) if a else S.Vector([], dtype=bool)
+        try:
+            sel = list(vself[vself])
+            tt = S.Table({"flag": list(a), "pos": list(range(len(a)))}) if a else S.Table({"flag": [True], "pos": [0]})[[False]]
+            tsel = [list(c) for c in tt[tt.flag].cols()]
+        except Exception as e:  # noqa: BLE001
+            return ctx.fail(f"mask-self/raised/{type(e).__name__}/{'empty' if not a else 'nonempty'}", f"v[v] for v = {a}: {e}")
+        if sel != [x for x in a if x] or tsel != [[x for x in a if x], [i for i, x in enumerate(a) if x]]:
+            return ctx.fail("mask-self/mismatch", f"v[v] for v = {a}: {sel}; table {tsel}")
     # & | ^ are Python's own operators too: on ints they work on bits (1 & 2 == 0 although both are truthy)
     ops = CMP + (LOGIC if ka in ("bool", "int") and kb in ("bool", "int") else [])
     for name, op in ops:
@@ -314,6 +326,23 @@ def run_compare(case, ctx):
                     return ctx.fail(f"compare-{form}/result-not-usable-as-mask/{'empty' if not got else 'nonempty'}", f"{a}[{a} {name} ...]: {type(e).__name__}: {e}")
                 if [freeze(x) for x in sel] != [freeze(x) for x, f in zip(a, want) if f]:
                     return ctx.fail(f"compare-{form}/mask-composition-wrong", f"{a}[{a} {name} {ys}] = {sel}")
+        if name in ("and", "or", "xor"):
+            # reflected forms: a plain list / scalar on the left of & | ^
+            for form, lhs, xs in (("rlist", list(a), a), ("rscalar", case["scalar"], [case["scalar"]] * len(a))):
+                if None in xs or (form == "rscalar" and type(case["scalar"]) not in (bool, int)):
+                    continue
+                try:
+                    want = [False if y is None else bool(op(x, y)) for x, y in zip(xs, b)]
+                except TypeError:
+                    ctx.python_undefined()
+                    continue
+                ctx.ev()
+                try:
+                    got = list(op(lhs, S.Vector(list(b))))
+                except Exception as e:  # noqa: BLE001
+                    return ctx.fail(f"compare-{form}/raised/{type(e).__name__}/{name}", f"{xs} {name} {b}: {e}")
+                if got != want:
+                    return ctx.fail(f"compare-{form}/mismatch/{name}", f"{xs} {name} {b}: got {got} want {want}")
         # length mismatch must raise
         for form in ("vector", "list"):
             wl = list(b) + [case["scalar"]] * case["wrong_len"]
